@@ -154,7 +154,7 @@ class BinningBase:
         widths = self.bins[:, 1] - self.bins[:, 0]
         return bool(np.allclose(np.diff(widths), 0.0, rtol=rtol, atol=atol))
 
-    def is_consecutive(self, rtol: float = 1.0e-5, atol: float = 1.0e-8) -> bool:
+    def is_consecutive(self, rtol: float = 0.0, atol: float = 0.0) -> bool:
         """Whether all bins are in a growing order.
 
         Parameters
